@@ -485,6 +485,7 @@ pub fn json_roundtrip(req: &J) -> J {
     let mut failures = Vec::new();
     let mut variants: std::collections::BTreeMap<&'static str, u64> = std::collections::BTreeMap::new();
     let mut max_depth = 0;
+    let mut batch: Vec<StorageSlot> = Vec::new();
     for i in 0..n {
         let index = rng.u256();
         let offset = match rng.below(8) {
@@ -532,6 +533,42 @@ pub fn json_roundtrip(req: &J) -> J {
                     failures.push(json!({"i": i, "stage": "compare:from_slice", "text": text}));
                 }
             }
+        }
+        // pretty-printed text and a byte vector
+        match serde_json::to_string_pretty(&slot) {
+            Err(e) => failures.push(json!({"i": i, "stage": "serialize:pretty", "error": e.to_string()})),
+            Ok(p) => match serde_json::from_str::<StorageSlot>(&p) {
+                Err(e) => failures.push(json!({"i": i, "stage": "deserialize:pretty", "error": e.to_string(), "text": text})),
+                Ok(b) => {
+                    if b != slot {
+                        failures.push(json!({"i": i, "stage": "compare:pretty", "text": text}));
+                    }
+                }
+            },
+        }
+        match serde_json::to_vec(&slot) {
+            Err(e) => failures.push(json!({"i": i, "stage": "serialize:to_vec", "error": e.to_string()})),
+            Ok(bytes) => {
+                if bytes != text.as_bytes() {
+                    failures.push(json!({"i": i, "stage": "compare:to_vec", "text": text}));
+                }
+            }
+        }
+        batch.push(slot.clone());
+        if batch.len() == 7 {
+            // a whole layout (what `StorageLayout::slots()` hands to the user) as one JSON array
+            match serde_json::to_string(&batch) {
+                Err(e) => failures.push(json!({"i": i, "stage": "serialize:list", "error": e.to_string()})),
+                Ok(t) => match serde_json::from_str::<Vec<StorageSlot>>(&t) {
+                    Err(e) => failures.push(json!({"i": i, "stage": "deserialize:list", "error": e.to_string(), "text": text})),
+                    Ok(b) => {
+                        if b != batch {
+                            failures.push(json!({"i": i, "stage": "compare:list", "text": text}));
+                        }
+                    }
+                },
+            }
+            batch.clear();
         }
         let back: Result<StorageSlot, _> = serde_json::from_str(&text);
         match back {
